@@ -10,7 +10,7 @@ let () =
     | [] -> () in
   args (List.tl (Array.to_list Sys.argv));
   let oc = if !out = "" then stdout else open_out_bin !out in
-  (match !id with
-   | "C07" -> C07.run ~seed:!seed ~tier:!tier oc
-   | s -> prerr_endline ("driver: unknown property " ^ s); exit 2);
+  (match List.assoc_opt !id Props_gen.table with
+   | Some run -> run ~seed:!seed ~tier:!tier oc
+   | None -> prerr_endline ("driver: unknown property " ^ !id); exit 2);
   close_out oc
